@@ -80,6 +80,10 @@ def path_cases(tier, rng):
         [A(1, 2, 0), A(2, 1, 1), A(1, 2, 2)],
         [A(1, 2, 0), A(3, 4, 1), A(2, 3, 2)],
         [A(1, 2, 0, 3), A(2, 3, 1, 4), A(3, 1, 2, 5)],
+        [A(1, 2, 1), A(2, 3, 2), A(3, 1, 3), A(1, 2, 4)],                      # a walk with more hops than nodes
+        [A(1, 2, 8), A(2, 3, 9), A(3, 4, 10), A(4, 1, 11)], [A(1, 2, -3), A(2, 3, -2), A(3, 4, -1), A(4, 5, 0)],
+        [A(1, 2, 1), A(3, 2, 2), A(2, 4, 3)],                                # directed: node 2 only receives at 2
+        [A(2, 3, 5, 8), A(1, 2, 1, 8)],                                      # ids first inserted out of order
     ]
     for d in (0, 1):
         for h in corpus:
@@ -102,6 +106,9 @@ def path_cases(tier, rng):
         ops = temporal_graph(rng, nn, tm, bool(d), p=rng.choice([0.15, 0.25, 0.35]), loops=(rng.random() < 0.15))
         if rng.random() < 0.3:
             ops = [[o[0], o[1], o[2], o[3] * 2 + 3, None if o[4] is None else o[4] * 2 + 3] for o in ops]   # gaps between ids
+        sh = rng.choice([0, 0, 0, 8, 97, -3, -11])      # ids whose decimal strings have mixed lengths / signs
+        if sh:
+            ops = [[o[0], o[1], o[2], o[3] + sh, None if o[4] is None else o[4] + sh] for o in ops]
         yield hist_case(d, True, ops, ids="str" if i % 5 == 0 else "int", src="rand")
 
 
@@ -129,6 +136,14 @@ def queries(case, rng):
 class PathsBase:
     chunk = 20
     case_timeout = 4
+
+    @staticmethod
+    def warm_ok(prefix, line):
+        """warm-up queries only for roots that already exist (the properties quantify over roots in the graph)"""
+        w = line.split()
+        if w[0] in ("dag", "trp"):
+            return int(w[2]) in gen.nodes_of(prefix["ops"])
+        return True
 
     @classmethod
     def cases(cls, tier, rng):
@@ -369,11 +384,26 @@ class C15(PathsBase):
 def random_paths(rng):
     k = rng.choice([1, 1, 2, 3, 4, 5, 7])
     paths = []
+    base = rng.choice([0, 0, 0, 1700000000, 3 * 10 ** 12])   # epoch-scale timestamps must not create ties
+    if rng.random() < 0.25:
+        # several distinct paths sharing their first and last hop
+        a, z, t0 = 1, 9, base + rng.randint(0, 3)
+        last_t = t0 + rng.choice([4, 5, 6])
+        for _ in range(rng.choice([2, 3])):
+            mids = rng.sample([3, 4, 5, 6, 7], rng.choice([1, 2, 3]))
+            p = [[a, 2, t0]]
+            cur, tt = 2, t0
+            for m in mids:
+                tt += 1
+                p.append([cur, m, tt]); cur = m
+            p.append([cur, z, max(last_t, tt + 1)])
+            paths.append(p)
+        return paths
     for _ in range(k):
         if paths and rng.random() < 0.15:
             paths.append(list(rng.choice(paths))); continue
         L = rng.choice([1, 1, 2, 2, 3, 4])
-        t = rng.randint(0, 3)
+        t = base + rng.randint(0, 3)
         p = []
         a = 1
         for j in range(L):
